@@ -5,6 +5,9 @@ import ESV.Decomp.Optimize
 import ESV.Decomp.SemE
 import ESV.Decomp.Branches
 import ESV.Decomp.BrGuard
+import ESV.Decomp.Group
+import ESV.Decomp.SemB
+import ESV.Decomp.GrGuard
 open Lean Drv ESV ESV.Beh ESV.Decomp
 
 namespace Drv.DecompD
@@ -29,7 +32,10 @@ def graphTo (g : Graph) : Json :=
 
 def bgraphTo (g : BGraph) : Json :=
   Json.mkObj [("vs", jList (fun (v : BVertex) =>
-      ((vopTo v.op).setObjVal! "n" (jOpt jNat v.name)).setObjVal! "ifs" (jOpt jNat v.ifStart) |>.setObjVal! "ife" (jList jNat v.ifEnds)) g.vs),
+      ((vopTo v.op).setObjVal! "n" (jOpt jNat v.name)).setObjVal! "ifs" (jOpt jNat v.ifStart) |>.setObjVal! "ife" (jList jNat v.ifEnds)
+        |>.setObjVal! "mops" (jList (fun o => Json.mkObj (mopTo o)) v.ifOps) |>.setObjVal! "not" (.bool v.isNot)
+        -- what the Python object of a multi-if looks like: root unset, opcode renamed, marker class
+        |>.setObjVal! "multi" (.bool (!v.ifOps.isEmpty))) g.vs),
     ("es", jList (fun (e : BEdge) => Json.arr #[jNat e.src, jNat e.dst, jNat e.level, .bool e.loop, .bool e.isElse]) g.es)]
 
 def answerTo : Option (Nat × Nat) → Json
@@ -41,10 +47,17 @@ def answerTo : Option (Nat × Nat) → Json
 def frontBranches (labels : List Lbl) (gs os : List Graph) (answers : List (List (Option (Nat × Nat)))) : List (String × Json) :=
   let names := gs.map (optNames labels)
   let bgs := (os.zip names).map fun (o, ns) => BGraph.ofGraph ns o
-  let bb : Json := match (bgs.zipIdx).mapM (fun (b, k) => buildBranches (answers.getD k []) b) with
-    | .ok rs => jList bgraphTo rs
-    | .error e => Json.mkObj [("error", .str e)]
-  [("opt_names", jList (jList (jOpt jNat)) names), ("bb", bb)]
+  let err (e : String) : Json := Json.mkObj [("error", .str e)]
+  let rest : List (String × Json) := match (bgs.zipIdx).mapM (fun (b, k) => buildBranches (answers.getD k []) b) with
+    | .error e => [("bb", err e)]
+    | .ok rs =>
+      -- group_branches, then invert_branches (deterministic: no oracle)
+      ("bb", jList bgraphTo rs) :: match rs.mapM groupBranches with
+        | .error e => [("gb", err e)]
+        | .ok gbs => ("gb", jList bgraphTo gbs) :: match gbs.mapM invertBranches with
+          | .error e => [("ib", err e)]
+          | .ok ibs => [("ib", jList bgraphTo ibs)]
+  ("opt_names", jList (jList (jOpt jNat)) names) :: rest
 
 def front (rs : List (List MOp)) (answers : Option (List (List (Option (Nat × Nat))))) : Json :=
   match resolve rs with
@@ -157,7 +170,13 @@ def answersOf (j : Json) : R (List (List (Option (Nat × Nat)))) := do
 
 def bgraphOf (j : Json) : R BGraph := do
   let vs ← (← asArr (← fld j "vs")).mapM fun v => do
-    pure (⟨← asOpt asNat (← fld v "n"), ← vopOf v, ← asOpt asNat (← fld v "ifs"), ← (← asArr (← fld v "ife")).mapM asNat⟩ : BVertex)
+    let mops ← match v.getObjVal? "mops" with
+      | .ok a => (← asArr a).mapM BehD.mopOf
+      | .error _ => pure []
+    let isNot ← match v.getObjVal? "not" with
+      | .ok a => asBool a
+      | .error _ => pure false
+    pure (⟨← asOpt asNat (← fld v "n"), ← vopOf v, ← asOpt asNat (← fld v "ifs"), ← (← asArr (← fld v "ife")).mapM asNat, mops, isNot⟩ : BVertex)
   let es ← (← asArr (← fld j "es")).mapM fun e => do
     match (← asArr e) with
     | [s, d, l, lp, el] => pure (⟨← asNat s, ← asNat d, ← asNat l, ← asBool lp, ← asBool el⟩ : BEdge)
@@ -188,6 +207,42 @@ def validateBranches (opts : List Graph) (names : List (List (Option Nat))) (ans
       "changed" (.bool (decide (b'.vs ≠ o.vs) || decide (b'.es ≠ o.es)))
   Json.mkObj [("bb", .arr res.toArray)]
 
+/-- number of encoded states of `stepB` that can occur (for the search budget) -/
+def bStates (g : BGraph) : Nat := (g.vs.length + 2) * (1 + (g.vs.map fun v => v.ifOps.length).foldl max 0)
+
+def verdictB (f₁ f₂ : NStep) (n₁ n₂ a b : Nat) : Json :=
+  BehD.verdictJson f₁ f₂ (n₁ + n₂ + 8) ((n₁ + 4) * (n₂ + 4) + 64) a b
+
+/-- where the vertex named like vertex 0 of `g` is in `g'` (after a `delete_vertices`) -/
+def startIn (g g' : BGraph) : Option Nat :=
+  match g.vs[0]? with
+  | none => if g'.vs.isEmpty then some 0 else none
+  | some v0 => g'.vs.findIdx? fun v => v0.name.isSome && v.name == v0.name
+
+/-- per-input validation of the REAL graphs of `group_branches` / `invert_branches` with the proven checker, under the
+flag-based reading `stepB`; plus the bridge (level-based `stepE` vs `stepB`) on the real graph after `build_branches`,
+and the hypotheses of the theorems of lean/ESV/Props/DecompGroup.lean evaluated on the real graphs -/
+def validateGroup (bbs : List BGraph) (gbs ibs : Option (List BGraph)) : Json :=
+  let res := bbs.zipIdx.map fun (b, k) =>
+    let bridge := (verdictB b.toGraph.stepE b.stepB (b.vs.length + 2) (bStates b) 0 0).setObjVal! "bridge_ok" (.bool (bridgeOk b))
+    let base := [("r", jNat k), ("bridge", bridge)]
+    let grp := match gbs.bind (·[k]?) with
+      | none => []
+      | some gb =>
+        let v := match startIn b gb with
+          | some st => verdictB b.stepB gb.stepB (bStates b) (bStates gb) 0 st
+          | none => Json.mkObj [("verdict", .str "start-deleted")]
+        let v := (((v.setObjVal! "struct_ok" (.bool (groupStructOk b))).setObjVal! "del_ok" (.bool (groupDelOk b))).setObjVal!
+          "flags_unique" (.bool (flagsUnique b))).setObjVal! "changed" (.bool (decide (gb.vs ≠ b.vs) || decide (gb.es ≠ b.es)))
+        let inv := match ibs.bind (·[k]?) with
+          | none => []
+          | some ib =>
+            [("invert", ((verdictB gb.stepB ib.stepB (bStates gb) (bStates ib) 0 0).setObjVal! "struct_ok" (.bool (invertStructOk gb))).setObjVal!
+              "changed" (.bool (decide (ib.vs ≠ gb.vs) || decide (ib.es ≠ gb.es))))]
+        ("group", v) :: inv
+    Json.mkObj (base ++ grp)
+  Json.mkObj [("routines", .arr res.toArray)]
+
 def handle (op : String) (j : Json) : R Json := do
   match op with
   | "decomp.validate_opt" =>
@@ -210,6 +265,23 @@ def handle (op : String) (j : Json) : R Json := do
         |>.setObjVal! "verdict" ((BehD.verdictJson g.toGraph.stepE g'.toGraph.stepE (g.vs.length + g'.vs.length + 8)
             ((g.vs.length + 4) * (g'.vs.length + 4) + 64) 0 0).getObjValD "verdict")
         |>.setObjVal! "no_silent_cycle" (.bool (noSilentCycle g.toGraph))
+      | .error e => Json.mkObj [("error", .str e)])
+  | "decomp.validate_group" =>
+    let bbs ← (← asArr (← fld j "bb")).mapM bgraphOf
+    let opt (k : String) : R (Option (List BGraph)) := match j.getObjVal? k with
+      | .ok (.arr a) => some <$> a.toList.mapM bgraphOf
+      | _ => pure none
+    pure (validateGroup bbs (← opt "gb") (← opt "ib"))
+  | "decomp.group" =>
+    -- graph-level tie: one pass of the model on a hand-built graph, the hypotheses and the checker's verdict
+    let g ← bgraphOf (← fld j "g")
+    let pass ← asStr (← fld j "pass")
+    let (res, hyp) := if pass == "group" then (groupBranches g, groupStructOk g && groupDelOk g)
+      else (invertBranches g, invertStructOk g)
+    pure (match res with
+      | .ok g' => (((bgraphTo g').setObjVal! "hyp" (.bool hyp)).setObjVal! "verdict"
+          ((verdictB g.stepB g'.stepB (bStates g) (bStates g') 0 0).getObjValD "verdict")).setObjVal! "bridge_ok" (.bool (bridgeOk g))
+          |>.setObjVal! "bridge" ((verdictB g.toGraph.stepE g.stepB (g.vs.length + 2) (bStates g) 0 0).getObjValD "verdict")
       | .error e => Json.mkObj [("error", .str e)])
   | "decomp.validate" =>
     let rs ← (← asArr (← fld j "rs")).mapM fun r => do (← asArr r).mapM BehD.mopOf
